@@ -197,7 +197,12 @@ func (fp *FnPaths) inlinable(s *Seg, c *ssa.Call, stack []inlFrame) *ssa.Functio
 		return nil
 	}
 	f := c.Call.StaticCallee()
-	if f == nil || f.Blocks == nil || f.Pkg == nil || f.Pkg != fp.Fn.Pkg || f.Synthetic != "" || f == fp.Fn || f.Parent() != nil {
+	if f == nil || f.Blocks == nil || f.Pkg == nil || f.Pkg != fp.Fn.Pkg || f.Synthetic != "" || f == fp.Fn {
+		return nil
+	}
+	// a local closure of the analysed function (`report := func(err error) bool {...}`) is expanded like a
+	// helper; closures of other functions are not
+	if f.Parent() != nil && f.Parent() != fp.Fn {
 		return nil
 	}
 	for _, fr := range stack {
@@ -1293,6 +1298,21 @@ func doneCallOf(v ssa.Value, d int) *ssa.Call {
 			}
 			if n == 1 {
 				return doneCallOf(only, d+1)
+			}
+		}
+		// a struct field that only ever receives ctx.Done() results (`done: ctx.Done()` in the constructor)
+		if fa, ok := cell.(*ssa.FieldAddr); ok && theProg != nil {
+			if fo := fieldObj(fa); fo != nil {
+				st := theProg.StoresToField(fo)
+				var c *ssa.Call
+				for _, v := range st {
+					dc := doneCallOf(v, d+1)
+					if dc == nil {
+						return nil
+					}
+					c = dc
+				}
+				return c
 			}
 		}
 	}
